@@ -220,6 +220,16 @@ def rule_e(model, rep):
               "the allowed settings of a handler are its own setting_kwds, *extended* by the rounds keywords when it has rounds",
               witness="a context-wide truncate_error=True (or vary_rounds) is silently dropped for hashers that have a rounds setting (bcrypt): "
                       "over-long passwords are truncated although the policy forbids it")
+    # ... and that extension is the list of cost keywords HasRounds.using() takes: two tables that must agree
+    ucls = model.cls(UH, "HasRounds")
+    tab = model.fold(model.unit(UH), ast.Attribute(value=ast.Name(id="HasRounds", ctx=ast.Load()), attr="using_rounds_kwds", ctx=ast.Load()))
+    ufn = model.func(UH, "HasRounds.using")
+    named = [a.arg for a in ufn.args.args[1:] + ufn.args.kwonlyargs]
+    want = sorted(set(named) - {"rounds"})
+    got = sorted(tab) if isinstance(tab, (tuple, list)) and all(isinstance(x, str) for x in tab) else None
+    rep.check(got == want and (got is None or len(got) == len(tab)), R, site(UH, "HasRounds.using_rounds_kwds"), f"{tab!r}"[:160],
+              f"the cost keywords a context may pass to every rounds-based hasher are exactly the parameters of HasRounds.using() (other than `rounds`, a setting of its own): {want}",
+              witness="a missing comma merges 'max_rounds' 'default_rounds' into one string: all__max_rounds / all__default_rounds are silently dropped and hash() uses the stock cost")
     # deprecated resolution
     fn = model.func(CTX, "_CryptConfig.is_deprecated_with_flag")
     t = qtext(fn)
@@ -283,6 +293,7 @@ def run(model, rep):
     rep.explanation = __doc__
     from . import shared
     shared.fact_iter_config_by_key(model, rep, "C04.e-policy-facts")
+    shared.rule_memo_keys(model, rep, "C04.i-memo-keys", ("passlib.context",), minimum=2)
     rule_a(model, rep)
     rule_b(model, rep)
     rule_c(model, rep)
